@@ -38,8 +38,14 @@ pub fn h_pattern_tokens() {
             5 => p.push_str("[0-9]*"),
             6 => p.push('-'),
             7 => {
-                let len = [1usize, 18, 19, 20][sym::choose("ndigits", 4)];
-                p.push_str(&sym::any_str("digits", "hex:30-39", len, len));
+                // long runs: a concrete prefix around the i64 boundary and two symbolic digits
+                match sym::choose("ndigits", 4) {
+                    0 => {}
+                    1 => p.push_str("9223372036854775"),
+                    2 => p.push_str("92233720368547758"),
+                    _ => p.push_str("922337203685477580"),
+                }
+                p.push_str(&sym::any_str("digits", "hex:30-39", 1, 2));
             }
             8 => p.push_str("é"),
             _ => p.push_str(&sym::any_str("c", "set:a.[*?nb", 1, 1)),
@@ -49,8 +55,8 @@ pub fn h_pattern_tokens() {
     let name = match sym::choose("name", 3) {
         0 => "a-1".to_string(),
         1 => {
-            let len = [1usize, 19, 20][sym::choose("nlen", 3)];
-            format!("a-{}", sym::any_str("ndigits", "hex:30-39", len, len))
+            let pre = ["", "92233720368547758", "922337203685477580"][sym::choose("nlen", 3)];
+            format!("a-{}{}", pre, sym::any_str("ndigits", "hex:30-39", 1, 2))
         }
         _ => sym::any_str("n", "set:a-1é", 0, 3),
     };
@@ -73,7 +79,8 @@ pub fn h_names() {
 }
 
 pub fn h_revision_digits() {
-    let s = format!("p-1nb{}", sym::any_str("d", "hex:30-39", 0, 20));
+    let pre = ["", "92233720368547758", "9223372036854775809"][sym::choose("pre", 3)];
+    let s = format!("p-1nb{}{}", pre, sym::any_str("d", "hex:30-39", 0, 2));
     let n = PkgName::new(&s);
     let _ = n.pkgrevision();
     let p = Pattern::new("p>=1").unwrap();
